@@ -27,6 +27,7 @@ type Env struct {
 	idx   int
 	pkg   *types.Package
 	reach string
+	oldNowT string
 	errs  *[]string
 	what  string
 }
@@ -820,6 +821,37 @@ func (e *Env) evalCall(t *ast.CallExpr) Val {
 			return boolVal("false")
 		}
 		return boolVal(eq(v.L[0], vc.typeTag(T)))
+	case "unchanged", "unchangedExcept":
+		// unchangedExcept("pattern", ...): every heap family that may differ between the
+		// pre-state and the current state is equal on all pre-existing objects, except the
+		// families matching one of the patterns.
+		if e.old == nil {
+			e.errf("unchanged() used where no pre-state exists")
+			return boolVal("true")
+		}
+		except := map[string]bool{}
+		for _, a := range t.Args {
+			if bl, ok := a.(*ast.BasicLit); ok && bl.Kind == token.STRING {
+				p, _ := strconv.Unquote(bl.Value)
+				except[p] = true
+			} else {
+				e.errf("unchangedExcept takes string patterns")
+			}
+		}
+		return boolVal(vc.unchangedFormula(e.old, e.heap, e.oldNow(), except))
+	case "strOf":
+		// strOf(b): the string with the bytes of slice b (same term as the conversion string(b))
+		v := arg(0)
+		if v.Typ == nil || len(v.L) != 4 {
+			e.errf("strOf needs a byte slice")
+			return intVal("0")
+		}
+		vc.family("E_uint8", famSortFor("Int", 2))
+		f := vc.declFun("str_of_bytes", []string{"(Array Int Int)", "Int", "Int"}, "Int")
+		return Val{Typ: types.Typ[types.String], L: []string{"(" + f + " (select " + vc.lookup(e.heap, "E_uint8") + " " + v.L[0] + ") " + v.L[1] + " " + v.L[2] + ")"}}
+	case "strBytes":
+		f := vc.declFun("bytes_of_str", []string{"Int"}, "(Array Int Int)")
+		return Val{L: []string{"(" + f + " " + arg(0).T() + ")"}, S: []string{"(Array Int Int)"}}
 	case "unbox":
 		// unbox(x, T): the value of dynamic type T carried by interface x
 		v := arg(0)
@@ -879,6 +911,9 @@ func (e *Env) evalCall(t *ast.CallExpr) Val {
 }
 
 func (e *Env) oldNow() string {
+	if e.oldNowT != "" {
+		return e.oldNowT
+	}
 	if e.fr != nil && e.fr.entry != nil {
 		return e.fr.entry.now
 	}
@@ -911,4 +946,114 @@ func (vc *VC) specFunc(sf *SpecFunc, from *Env) string {
 	vc.declared[n] = true
 	vc.emit("(define-fun " + n + " (" + strings.Join(ps, " ") + ") " + specSort(sf.Ret) + " " + body + ")")
 	return n
+}
+
+// unchangedFormula: conjunction, over every family possibly changed between
+// heaps a and b, of equality on objects that existed at time oldNow.
+func (vc *VC) unchangedFormula(a, b *Heap, oldNow string, except map[string]bool) string {
+	acc := map[string]bool{}
+	if !vc.changedBetween(a, b, acc, map[*Heap]bool{}) {
+		acc["*"] = true
+	}
+	vc.registerAllFamilies()
+	var fams []string
+	for f := range vc.famSort {
+		if inSet(acc, f) && !inSet(except, f) {
+			fams = append(fams, f)
+		}
+	}
+	sortStrings(fams)
+	var cs []string
+	for _, f := range fams {
+		x, y := vc.lookup(a, f), vc.lookup(b, f)
+		if x == y {
+			continue
+		}
+		if !strings.HasPrefix(vc.famSort[f], "(Array Int ") {
+			cs = append(cs, eq(x, y))
+			continue
+		}
+		v := q(vc.freshName("bv.u"))
+		cs = append(cs, "(forall (("+v+" Int)) (! (=> (< (birth "+v+") "+oldNow+") (= (select "+y+" "+v+") (select "+x+" "+v+"))) :pattern ((select "+y+" "+v+"))))")
+	}
+	return and(cs...)
+}
+
+// registerAllFamilies declares (names and sorts of) the heap families of every
+// struct type of the repository, so that wildcard havocs and frame formulas
+// range over all of them, not only over those mentioned so far.
+func (vc *VC) registerAllFamilies() {
+	if vc.specDone["allfams"] {
+		return
+	}
+	vc.specDone["allfams"] = true
+	seen := map[string]bool{}
+	var visit func(t types.Type)
+	visit = func(t types.Type) {
+		n := vc.typeName(t)
+		if seen[n] {
+			return
+		}
+		seen[n] = true
+		switch u := t.Underlying().(type) {
+		case *types.Pointer:
+			visit(u.Elem())
+		case *types.Slice:
+			et := u.Elem()
+			if !vc.flatStruct(et) {
+				if _, isArr := et.Underlying().(*types.Array); !isArr {
+					for _, l := range vc.shape(et) {
+						vc.family("E_"+vc.typeName(et)+l.Suffix, famSortFor(l.Sort, 2))
+					}
+				}
+			}
+			visit(et)
+		case *types.Array:
+			et := u.Elem()
+			if !vc.flatStruct(et) {
+				if _, isArr := et.Underlying().(*types.Array); !isArr {
+					for _, l := range vc.shape(et) {
+						vc.family("E_"+vc.typeName(et)+l.Suffix, famSortFor(l.Sort, 2))
+					}
+				}
+			}
+			visit(et)
+		case *types.Map:
+			vc.mapFamilies(u)
+			visit(u.Key())
+			visit(u.Elem())
+		case *types.Struct:
+			if !vc.flatStruct(t) {
+				return
+			}
+			for i := 0; i < u.NumFields(); i++ {
+				ft := u.Field(i).Type()
+				if vc.flatStruct(ft) {
+					visit(ft)
+					continue
+				}
+				if _, ok := ft.Underlying().(*types.Array); ok {
+					visit(ft)
+					continue
+				}
+				for _, l := range vc.shape(ft) {
+					vc.family(vc.fieldFam(t, u.Field(i).Name())+l.Suffix, famSortFor(l.Sort, 1))
+				}
+				visit(ft)
+			}
+		}
+	}
+	var names []string
+	for n := range vc.P.TypesByName {
+		names = append(names, n)
+	}
+	sortStrings(names)
+	for _, n := range names {
+		visit(vc.P.TypesByName[n])
+	}
+	vc.family("Chan.closed", "(Array Int Bool)")
+	for k, gf := range vc.S.Ghosts {
+		i := strings.LastIndex(k, ".")
+		vc.family("H_"+k[:i]+"."+gf.Name, "(Array Int "+specSort(gf.GType)+")")
+	}
 }
